@@ -219,6 +219,17 @@ def gen_conc(rng, n):
     return out
 
 
+def gen_fwd(rng, n):
+    """real runBidirectionalForward on both nodes over real FrameStreams (Go-side predicate only)"""
+    out = []
+    sizes = [0, 1, 100, 4096, 32768, 32769, MAXF, MAXF + 1, 150000]
+    for _ in range(n):
+        out.append({"mode": "fwd", "reader": hx(rand_id_string(rng)), "req": rand_bytes(rng, rng.choice(sizes)).hex(),
+                    "resp": rand_bytes(rng, rng.choice(sizes)).hex(),
+                    "wsize": [rng.choice([1, 7, 1000, 32768, 70000, 200000]) for _ in range(rng.randrange(0, 6))]})
+    return out
+
+
 def gen_tid(rng, n):
     out = [{"mode": "tid", "strs": [hx(""), hx("a"), hx("1234567890123456"), hx("12345678901234567x"), hx("my-tunnel-id")]}]
     for _ in range(n):
@@ -244,7 +255,7 @@ def case_values(c, o):
             fr = [[[hb(f["tid"]), f["ty"], hb(f["data"])] for f in c["frames"]]]
         obs = [[1, hb(x["tid"]), x["ty"], hb(x["data"]), x["consumed"]] if x["ok"] else [0, x["eof"], x["consumed"]] for x in o["obs"]]
         return [[0, fr, hb(o["wire"]), list(c["cuts"]), obs]]
-    if c["mode"] == "conc":
+    if c["mode"] in ("conc", "fwd"):
         return []     # real goroutine interleaving: frame order is not reproducible, Go-side predicate only
     if c["mode"] == "stream":
         ops = []
@@ -360,6 +371,7 @@ def run(ctx, only_cases=None):
         cases += gen_stream_big(rng, thorough)
         cases += gen_tid(rng, 400 if thorough else 40)
         cases += gen_conc(rng, 60 if thorough else 8)
+        cases += gen_fwd(rng, 100 if thorough else 12)
     outs = vlib.run_harness(binary, cases, timeout=1500)
     if only_cases is None:
         wires = [o["wire"] for c, o in zip(cases, outs) if c["mode"] in ("enc", "stream") and 0 < o["wire_len"] < 3000]
@@ -456,6 +468,10 @@ def run(ctx, only_cases=None):
             dist["stream_dribbled_over_tcp"] += bool(c.get("dribble"))
             dist["reader_terminations"][o.get("term")] = dist["reader_terminations"].get(o.get("term"), 0) + 1
             if len(o.get("reads") or []) >= 2 and (foreign or bigw):
+                nontrivial.add(h)
+        elif c["mode"] == "fwd":
+            dist["bidirectional_forward_runs"] = dist.get("bidirectional_forward_runs", 0) + 1
+            if o.get("wire_len", 0) > MAXF:
                 nontrivial.add(h)
         elif c["mode"] == "conc":
             dist["concurrent_writer_runs"] = dist.get("concurrent_writer_runs", 0) + 1
